@@ -151,7 +151,8 @@ Qed.
 Lemma xtolower_not_upper c : negb (upper (xtolower c)) = true.
 Proof.
   destruct (N.lt_ge_cases c 256) as [H|H]; [apply xtolower_not_upper_256, H|].
-  unfold xtolower. rewrite tbl_get_default by (vm_compute; lia). unfold upper. lia.
+  assert (L : lenN uri_xtolower_tbl = 256) by (vm_compute; reflexivity).
+  unfold xtolower. rewrite tbl_get_default by lia. unfold upper. lia.
 Qed.
 
 Lemma map_xtolower_no_upper l : no_upper (map xtolower l).
@@ -179,9 +180,8 @@ Lemma finish_inv c ipq sch login host port urlpath u :
   has_dotdot h3 = false /\ starts_dot h3 = false /\
   (c_check c = true -> forallb (hostchars c) (lower_host c host) = true).
 Proof.
-  unfold finish. intros H h3.
+  intros H h3. unfold finish in H. fold h3 in H.
   destruct (c_check c && negb (forallb (hostchars c) (lower_host c host))) eqn:Hc; [discriminate|].
-  fold h3 in H.
   destruct (has_dotdot h3 || starts_dot h3) eqn:Hd; [discriminate|].
   destruct ((port <? 1) || (65535 <? port)) eqn:Hp; [discriminate|].
   destruct (ws_path c urlpath) as [p|] eqn:Hw; [|discriminate].
